@@ -62,6 +62,10 @@ CLAIMED["C15"] = ("Bounded symbolic model checking of menu cycling through the r
  "Trusted: gosx, terminal stub (symbolic winsize), native uniseg width on concrete candidate text.",
  "symbolic execution of the real SSA (completion grid arithmetic over a symbolic terminal size) + SMT (z3) path decisions, exactly-once assertions", "DESIGN.md §5 C15")
 
+CLAIMED["C11"] = ("Bounded symbolic model checking of terminal restoration on every way out of Readline (accept-line, accept-and-hold, interrupt, end-of-file, insert-comment, a panicking user command) in emacs, vi-insert and vi-command: the initial terminal mode settings are symbolic (flag words, VMIN, VTIME) and must be equal after the call for all values; the output stream is interpreted by a VT100 model on a terminal of symbolic width: the last cursor style must be the user's default and the cursor must stand at column 0 of a fresh row below the input (wrapped and exactly-filled rows included).",
+ "Trusted: gosx, the VT100 model in the harness package (zzverif.VT), terminal stubs. Single-line buffers of lower-case letters; hints/menus are not open at exit; MakeRaw failing is not driven.",
+ "symbolic execution of the real SSA (Readline loop, display engine, term package) + SMT (z3) equality of symbolic termios and VT-model cursor assertions", "DESIGN.md §5 C11")
+
 PENDING = {}
 
 NA = {
